@@ -69,6 +69,7 @@ class Monitor:
         self.m = None  # dependent mode: response methods of components < m are expected
         self.phase = 'REQ'
         self.escaped = False
+        self.meta = False  # the request method is a meta method (WEBSOCKET): the framework itself rejects it before anything else runs
 
     # -- helpers ------------------------------------------------------------------
     def chk(self, name, cond):
@@ -76,6 +77,10 @@ class Monitor:
 
     def complete(self):
         return self.resp.complete
+
+    def not_meta(self):
+        # an HTTP request with a meta method is rejected (raise, handled as every other error) before any middleware method, routing or the responder
+        self.chk('meta-method-rejected-before-any-request-method-routing-or-responder', Or(Not(self.meta), self.raised))
 
     # -- request phase ----------------------------------------------------------------
     def fetch_req(self, k):
@@ -88,6 +93,7 @@ class Monitor:
         self.pending_req = And(has_method, Not(self.complete()))
 
     def call_req(self, k, args):
+        self.not_meta()
         self.chk('request-method-only-while-nothing-completed-or-raised',
                  And(self.phase == 'REQ', self.pending_req, k == self.visited_req - 1, Not(self.complete()), Not(self.raised)))
         self.chk('request-method-arguments', len(args) == 2 and args[0] is self.req and args[1] is self.resp)
@@ -99,6 +105,7 @@ class Monitor:
 
     # -- routing -----------------------------------------------------------------------
     def on_route(self):
+        self.not_meta()
         all_walked = self.visited_req == self.n_req
         self.chk('routing-after-all-request-methods-and-only-if-nothing-completed-or-raised',
                  And(self.phase == 'REQ', all_walked, Not(self.pending_req), Not(self.complete()), Not(self.raised), Not(self.route_attempted)))
@@ -117,6 +124,7 @@ class Monitor:
         self.pending_rsrc = False
 
     def on_responder(self, args):
+        self.not_meta()
         rsrc_done = Or(Not(self.resource_truthy), self.visited_rsrc == self.n_rsrc)
         self.chk('responder-only-if-nothing-completed-or-raised',
                  And(self.routed, Not(self.raised), Not(self.complete()), Not(self.pending_rsrc), rsrc_done, self.responder_calls == 0))
@@ -156,6 +164,7 @@ class Monitor:
     def finish(self):
         """Normal completion of the request-processing half."""
         self.start_resp_phase()
+        self.not_meta()
         self.chk('every-expected-response-method-was-called', self.visited_resp == self.expected_resp_len())
         # nothing that was due was skipped unless something raised or completed
         self.chk('no-due-request-method-skipped', Or(Not(self.pending_req), self.raised, self.complete()))
@@ -247,7 +256,10 @@ def mk_app(v, target, asgi):
     n_rsrc = v.int('n_rsrc', 0)
     n_resp = v.int('n_resp', 0) if independent else 0
     mon = Monitor(v, independent, n_req, n_rsrc, n_resp)
-    req = Req('GET')
+    # the request method: an ordinary one, or a meta method (constants._META_METHODS) that App.__call__ itself rejects with HTTPBadRequest
+    method = v.one_of('request-method', 'GET', 'WEBSOCKET')
+    mon.meta = method == 'WEBSOCKET'
+    req = Req(method)
     resp = Resp(v, mon)
     mon.req, mon.resp = req, resp
 
@@ -294,6 +306,14 @@ def mk_app(v, target, asgi):
 
         def __call__(self_, rq, rs, ex, params, **kw):
             v.check('stack-discipline:error-handling-gets-the-request-response-and-error', rq is req and rs is resp and ex is not None)
+            if mon.meta and not ex.isa(AppError):
+                # the framework's own rejection of the meta method: it counts as "something raised" (success flag false, no request method runs)
+                v.check('stack-discipline:meta-method-rejected-with-bad-request-before-the-request-stack-is-walked',
+                        And(ex.isa(v.real('falcon.errors:HTTPBadRequest')), mon.phase == 'REQ', mon.visited_req == 0, Not(mon.route_attempted), Not(mon.raised)))
+                mon.raised = True
+                v.cover('meta-method-rejected')
+            else:
+                v.check('stack-discipline:only-errors-of-user-callables-reach-error-handling', ex.isa(AppError))
             # the handler is user code: it may set complete either way; it may itself fail, in which case the call is abandoned
             mon.resp.complete = v.bool('complete_after_handler')
             if v.choose(2, 'handler-outcome') == 1:
@@ -393,6 +413,7 @@ def _havoc_mon(ctx, mon, which):
 
 @harness(PROP, WSGI + '.__call__', setup=call_loops(WSGI))
 def wsgi_call_discipline(v):
+    v.expect_covers('meta-method-rejected')
     app, mon = mk_app(v, WSGI, asgi=False)
     CUR.update(v=v, mon=mon, asgi=False)
     v.assume(mk_bool(RR(0) == z3.Empty(z3.SeqSort(z3.IntSort()))))
@@ -422,6 +443,7 @@ class _Send:
 
 @harness(PROP, ASGI + '.__call__', setup=call_loops(ASGI))
 def asgi_call_discipline(v):
+    v.expect_covers('meta-method-rejected')
     app, mon = mk_app(v, ASGI, asgi=True)
     CUR.update(v=v, mon=mon, asgi=True)
     v.assume(mk_bool(RR(0) == z3.Empty(z3.SeqSort(z3.IntSort()))))
@@ -437,8 +459,18 @@ ASSUMPTIONS = [
     'opaque user callables (middleware methods, responder, error handlers) may set resp.complete either way and may raise any Exception-derived error; '
     'they do not call back into the framework',
     'App._handle_exception returns True for every Exception-derived error (registry invariant, C04) or propagates a failure of the handler itself',
+    'the request method is an ordinary one ("GET") or a meta method ("WEBSOCKET"): App.__call__ reads it only to reject meta methods (which method the '
+    'responder serves is C02)',
+    'inputs left at one value because only the response tail (C05) or request construction (C06) reads them: resp_options.default_media_type, req_options None, '
+    '_standard_response_type False (chosen so that the ASGI tail ends at the render_body stub), the ASGI scope (http 1.1 / spec 2.1) and the single '
+    'http.request event, status 200 and empty headers on the response stub',
+    'prepare_middleware: iscoroutinefunction() answers "coroutine" for every method on ASGI and "plain function" on WSGI (the CompatibilityError raised for a '
+    'mismatch is interface validation, not stack order); _wrap_non_coroutine_unsafe is the identity',
+    'hooks: the responder has the argument names (req, resp, id, name); the hook is given one extra positional and one extra keyword argument',
 ]
-NOT_DECIDED = []
+NOT_DECIDED = [
+    'class-level use of the before / after decorators (hooks.before(...)(ResourceClass) wraps every on_* method found by getmembers): only the per-responder wrappers are under contract',
+]
 TRUSTED = ['ghost Monitor (specification automaton) and stubs Callee/GetResponder/HandleException/Resp/Req in contracts/C03_middleware.py',
            'spec function RR(m) = response methods of components 0..m-1, highest index first; its defining equation is assumed at the loop index']
 
@@ -460,6 +492,8 @@ KILLS = [
     (_APP, "                    if process_response:\n                        dependent_mw_resp_stack.insert(0, process_response)  # type: ignore[arg-type]\n",
      "                    if process_response and not resp.complete:\n                        dependent_mw_resp_stack.insert(0, process_response)  # type: ignore[arg-type]\n", 'inv:for#1:preserve'),
     (_APP, "                req_succeeded = True\n            except Exception as ex:", "            except Exception as ex:", 'inv:for#3:entry'),
+    # the request method used to be fixed to GET: a meta method (WEBSOCKET) sent over HTTP is no longer rejected before the stack is walked
+    (_APP, "            if req.method in self._META_METHODS:\n                raise HTTPBadRequest()\n", "", 'meta-method-rejected-before-any-request-method-routing-or-responder'),
 ]
 KILLS += [
     (_AAPP, "                    await process_request(req, resp)  # type: ignore[operator]\n\n                    if resp.complete:\n                        break\n",
@@ -468,6 +502,7 @@ KILLS += [
      'falcon.asgi.app:App.__call__#inv:for#1:preserve'),
     (_AAPP, "                if not resp.complete:\n                    await responder(req, resp, **params)\n", "                await responder(req, resp, **params)\n",
      'falcon.asgi.app:App.__call__#'),
+    (_AAPP, "            if req.method in self._META_METHODS:\n                raise HTTPBadRequest()\n\n", "", 'falcon.asgi.app:App.__call__#'),
     (_AAPP, "                for handler in reversed(self._unprepared_middleware):\n", "                for handler in self._unprepared_middleware:\n",
      '_call_lifespan_handlers#lifespan:handler'),
     (_AAPP, """                                    'type': EventType.LIFESPAN_STARTUP_FAILED,
@@ -481,6 +516,10 @@ KILLS += [
                             )
 """, '_call_lifespan_handlers#'),
     (_AAPP, "                await send({'type': EventType.LIFESPAN_SHUTDOWN_COMPLETE})\n                return\n", "                return\n", '_call_lifespan_handlers#lifespan:returns-only-after-answering'),
+    # the ASGI version used to be '3.0' / '2.0' only: a server that sends no version key is taken for ASGI 3; only the spelling '3.0' is accepted
+    (_AAPP, "                version = asgi_info.get('version', '2.0 (implicit)')\n", "                version = asgi_info.get('version', '3.0')\n",
+     '_call_lifespan_handlers#inv:for#0:entry'),  # the handler walk starts although the configuration error was due
+    (_AAPP, "                if not version.startswith('3.'):\n", "                if version != '3.0':\n", '_call_lifespan_handlers#lifespan:failed-only-after-a-failure'),
 ]
 HARMLESS = [
     (_APP, "        req_succeeded = False\n\n        try:\n            if req.method in self._META_METHODS:", "        req_succeeded = False\n        meta = self._META_METHODS\n\n        try:\n            if req.method in meta:"),
@@ -628,7 +667,9 @@ def asgi_lifespan(v):
             mon.on_send(str(getattr(event['type'], 'value', event['type'])))
             return Ready(None)
 
-    ver_ok = v.choose(2, 'asgi-3?')
+    # scope['asgi']['version'] as the server gives it: two 3.x spellings, 2.0, or no version key at all (2.0 is implied then)
+    ver_k = v.choose(4, 'asgi-version')
+    ver_ok = ver_k < 2
     form_opt = v.choose(2, 'auto_parse_form_urlencoded?')
     mon.config_error_possible = (not ver_ok) or bool(form_opt)
 
@@ -636,7 +677,7 @@ def asgi_lifespan(v):
         _auto_parse_form_urlencoded = bool(form_opt)
 
     app = v.obj(ASGI, _unprepared_middleware=Components(), req_options=_ReqOpts())
-    scope = {'type': 'lifespan', 'asgi': {'version': '3.0' if ver_ok else '2.0'}}
+    scope = {'type': 'lifespan', 'asgi': {} if ver_k == 3 else {'version': ['3.0', '3.1', '2.0'][ver_k]}}
     # a configuration error (ASGI 2, or the deprecated form option) is reported as a startup failure
     orig_on_receive = mon.on_receive
 
@@ -695,10 +736,13 @@ def _hook_harness(which, is_coro):
             return
         wrapped = out.value
         rsrc, req, resp = object(), object(), object()
-        positional = v.choose(2, 'extra-args-positional?')
+        # how the route fields reach the wrapper: as keywords (the framework), positionally, or mixed (an app calling super().on_get(req, resp, id, name=...))
+        positional = v.choose(3, 'extra-args-positional?')
         pid, pname = object(), object()
-        if positional:
+        if positional == 1:
             r = v.interp.run(wrapped, (rsrc, req, resp, pid, pname), {})
+        elif positional == 2:
+            r = v.interp.run(wrapped, (rsrc, req, resp, pid), {'name': pname})
         else:
             r = v.interp.run(wrapped, (rsrc, req, resp), {'id': pid, 'name': pname})
         names = [e[0] for e in log]
@@ -706,7 +750,8 @@ def _hook_harness(which, is_coro):
         v.check('first-step-runs-exactly-once-first', len(names) >= 1 and names[0] == first and names.count(first) == 1)
         first_raised = r.exc is not None and len(names) == 1
         v.check('second-step-runs-exactly-once-iff-first-did-not-raise', (names == [first]) if first_raised else (names == [first, second]))
-        v.check('error-of-a-step-propagates', (r.exc is not None) == (v.ctx.choices.count(1) - positional > 0))
+        some_step_raised = any(lbl.endswith('-outcome=1') for lbl in v.ctx.labels)
+        v.check('error-of-a-step-propagates', (r.exc is not None) == some_step_raised)
         for name, a, k in log:
             if name == 'responder':
                 v.check('responder-gets-resource-req-resp-and-params-as-keywords',
@@ -732,6 +777,10 @@ KILLS += [
      "            sync_responder(self, req, resp, **kwargs)\n            sync_action(req, resp, self, kwargs, *action_args, **action_kwargs)\n", '_wrap_with_before#first-step-runs-exactly-once-first'),
     ('falcon/hooks.py', "            await async_responder(self, req, resp, **kwargs)\n            await async_action(req, resp, self, *action_args, **action_kwargs)\n",
      "            await async_action(req, resp, self, *action_args, **action_kwargs)\n            await async_responder(self, req, resp, **kwargs)\n", '_wrap_with_after#first-step-runs-exactly-once-first'),
+    # route fields given partly positionally, partly as keywords (used to be all-positional / all-keywords only): the positional ones are dropped
+    ('falcon/hooks.py', "            if args:\n                _merge_responder_args(args, kwargs, extra_argnames)\n\n            sync_action(req, resp, self, kwargs, *action_args, **action_kwargs)\n",
+     "            if args and not kwargs:\n                _merge_responder_args(args, kwargs, extra_argnames)\n\n            sync_action(req, resp, self, kwargs, *action_args, **action_kwargs)\n",
+     '_wrap_with_before#'),
 ]
 
 
@@ -770,7 +819,7 @@ class _Method:
 
 @stubclass
 class _Component:
-    def __init__(self, k, hq, hs, hp, suffix=''):
+    def __init__(self, k, hq, hs, hp, suffix='', decoy_suffix=None, other=None):
         self.k = k
         if hq:
             setattr(self, 'process_request' + suffix, _Method('req', k))
@@ -778,6 +827,17 @@ class _Component:
             setattr(self, 'process_resource' + suffix, _Method('rsrc', k))
         if hp:
             setattr(self, 'process_response' + suffix, _Method('resp', k))
+        if decoy_suffix is not None:
+            # the same methods implemented side by side under the OTHER interface's names (documented pattern for components shared between a WSGI
+            # and an ASGI app): they must not be picked -- a decoy is identified by the impossible index -1 - k
+            for has, name in ((hq, 'process_request'), (hs, 'process_resource'), (hp, 'process_response')):
+                if has:
+                    setattr(self, name + decoy_suffix, _Method('decoy', -1 - k))
+        if other is not None:
+            setattr(self, other, _Method('other', k))  # a lifespan / WebSocket method: not part of the three HTTP stacks
+
+
+OTHER_METHODS = ['process_startup', 'process_shutdown', 'process_request_ws', 'process_resource_ws']
 
 
 def _unwrap_mw(x):
@@ -827,6 +887,7 @@ def _prep_setup(asgi):
 
 def _prep_harness(asgi):
     def h(v):
+        v.expect_covers(*(['prepared'] + (['component-with-lifespan-or-websocket-methods-only'] if asgi else [])))
         independent = bool(v.choose(2, 'independent_middleware'))
         CUR.update(independent=independent)
         n = v.int('n_components', 0)
@@ -837,8 +898,19 @@ def _prep_harness(asgi):
 
         def comp(i):
             hq, hs, hp = mk_bool(HAS_REQ(_i(i))), mk_bool(HAS_RSRC(_i(i))), mk_bool(HAS_RESP(_i(i)))
-            v.assume(Or(hq, hs, hp))  # a component without any method is rejected: harness prepare_rejects_empty
-            return _Component(i, bool(hq), bool(hs), bool(hp), '_async' if asgi and v.choose(2, 'async-suffix?') else '')
+            hq, hs, hp = bool(hq), bool(hs), bool(hp)
+            if not (hq or hs or hp):
+                # none of the three HTTP methods: on ASGI a component that only has lifespan / WebSocket methods is legal and contributes nothing
+                # to the three stacks; every other empty component is rejected (harness prepare_rejects_empty)
+                if not asgi:
+                    v.cut()
+                v.cover('component-with-lifespan-or-websocket-methods-only')
+                return _Component(i, False, False, False, other=OTHER_METHODS[v.choose(len(OTHER_METHODS), 'other-method')])
+            # naming: the interface's own names only / (ASGI) the *_async names only / both variants side by side
+            if asgi:
+                nm = v.choose(3, 'async-suffix?')
+                return _Component(i, hq, hs, hp, '_async' if nm else '', '' if nm == 2 else None)
+            return _Component(i, hq, hs, hp, '', '_async' if v.choose(2, 'async-twins?') else None)
 
         out = v.call(FnSeq(n, comp), independent, asgi)
         v.check('no-exception', out.exc is None)
@@ -868,13 +940,24 @@ for _a in (False, True):
 
 @harness(PROP, HELP + ':prepare_middleware', name='prepare_rejects_empty', inline=['falcon.util.misc:get_bound_method'])
 def prepare_rejects_empty(v):
-    """A component with none of the three methods is rejected with TypeError (WSGI)."""
+    """A component with none of the three methods is rejected with TypeError -- except, on ASGI, one that has a lifespan / WebSocket method."""
+    v.expect_covers('rejected', 'lifespan-only-component-accepted-on-asgi')
 
     class Empty:
         pass
 
-    out = v.call([Empty()], bool(v.choose(2, 'independent_middleware')), False)
-    v.check('component-without-methods-rejected', out.exc is not None and out.exc.isa(TypeError))
+    comp = Empty()
+    asgi = bool(v.choose(2, 'asgi'))
+    ok = v.choose(len(OTHER_METHODS) + 1, 'other-method')
+    if ok:
+        setattr(comp, OTHER_METHODS[ok - 1], _Method('other', 0))
+    out = v.call([comp], bool(v.choose(2, 'independent_middleware')), asgi)
+    if asgi and ok:
+        v.check('lifespan-or-websocket-only-component-contributes-nothing-to-the-http-stacks', out.exc is None and out.value == ((), (), ()))
+        v.cover('lifespan-only-component-accepted-on-asgi')
+    else:
+        v.check('component-without-methods-rejected', out.exc is not None and out.exc.isa(TypeError))
+        v.cover('rejected')
 
 
 _HLP = 'falcon/app_helpers.py'
@@ -885,4 +968,14 @@ KILLS += [
      "            if process_request:\n                request_mw.append((process_request, process_response))", 'prepare_middleware#inv:for#0:preserve'),
     (_HLP, "        if process_resource:\n            resource_mw.append(process_resource)", "        if process_resource:\n            resource_mw.insert(0, process_resource)",
      'prepare_middleware#inv:for#0:preserve'),
+    # components that implement both variants side by side (used to be: one naming per component): ASGI prefers the plain method
+    (_HLP, "                util.get_bound_method(component, 'process_response_async')\n                or _wrap_non_coroutine_unsafe(\n                    util.get_bound_method(component, 'process_response')\n                )\n",
+     "                _wrap_non_coroutine_unsafe(\n                    util.get_bound_method(component, 'process_response')\n                )\n                or util.get_bound_method(component, 'process_response_async')\n",
+     'prepare_middleware#inv:for#0:preserve'),
+    # WSGI picks up a *_async twin
+    (_HLP, "            process_resource = util.get_bound_method(component, 'process_resource')\n",
+     "            process_resource = util.get_bound_method(component, 'process_resource_async') or util.get_bound_method(component, 'process_resource')\n",
+     'prepare_middleware#inv:for#0:preserve'),
+    # ASGI components with lifespan / WebSocket methods only (used to be assumed away): process_shutdown alone no longer counts
+    (_HLP, "                    'process_startup',\n                    'process_shutdown',\n", "                    'process_startup',\n", 'prepare_middleware#'),
 ]
